@@ -126,6 +126,63 @@ func (env *Env) c07StatusDecoder() {
 			}
 		}
 	}
+	// the same set written as a lookup table: `if _, ok := known[status]; !ok { reject }`
+	// with known a package-level map filled once, by its initialiser
+	if len(accepted) == 0 {
+		for _, b := range fn.Blocks {
+			for _, in := range b.Instrs {
+				lk, ok := in.(*ssa.Lookup)
+				if !ok || !lk.CommaOk {
+					continue
+				}
+				ld, ok := lk.X.(*ssa.UnOp)
+				if !ok {
+					continue
+				}
+				gl, ok := ld.X.(*ssa.Global)
+				if !ok || len(env.P.GlobalSt[gl]) != 1 {
+					continue
+				}
+				st := env.P.GlobalSt[gl][0]
+				if st.Parent().Name() != "init" {
+					continue
+				}
+				mm, ok := st.Val.(*ssa.MakeMap)
+				if !ok {
+					continue
+				}
+				// the flag must gate every success path
+				ee := env.engine()
+				lt := ee.Eval(lk, ee.Root(fn))
+				gated := true
+				for _, a := range ee.EntryPaths(fn, flow.ModeErr) {
+					if hasGateAny(a, pat.Res("1", pat.Is(lt))) == nil {
+						gated = false
+					}
+				}
+				if !gated {
+					continue
+				}
+				onlyUpdates := true
+				for _, ref := range *mm.Referrers() {
+					switch u := ref.(type) {
+					case *ssa.MapUpdate:
+						if c, ok := u.Key.(*ssa.Const); ok && c.Value != nil && c.Value.Kind() == constant.String {
+							accepted[constant.StringVal(c.Value)] = true
+						} else {
+							onlyUpdates = false
+						}
+					case *ssa.Store, *ssa.DebugRef:
+					default:
+						onlyUpdates = false
+					}
+				}
+				if !onlyUpdates {
+					accepted = map[string]bool{}
+				}
+			}
+		}
+	}
 	want := []string{"UpToDate", "SWHardeningNeeded", "ConfigurationNeeded", "ConfigurationAndSWHardeningNeeded", "OutOfDate", "OutOfDateConfigurationNeeded", "Revoked"}
 	keys := func(m map[string]bool) string {
 		var ks []string
